@@ -27,6 +27,8 @@ type cliReq struct {
 	Body     []byte
 	BodyMode int // 0 none, 1 buffered, 2 stream declared, 3 stream unknown length
 	ReadChunk int
+	RespSizeUpd []uint32 // dynamic table size updates at the start of the (final) response header block
+	EOFWithLast bool // streamed bodies: the reader returns its last bytes together with io.EOF
 	BodyErrAt int // > 0 (streamed bodies only): the body reader fails once BodyErrAt-1 bytes have been handed out
 	// response script
 	Status     int
@@ -46,10 +48,11 @@ type cliReq struct {
 }
 
 type slowReader struct {
-	b     []byte
-	chunk int
-	errAt int
-	given int
+	b           []byte
+	chunk       int
+	errAt       int
+	given       int
+	eofWithLast bool // the last bytes come together with io.EOF (io.Reader allows both forms)
 }
 
 var errBodyReader = errors.New("scenario: the request body reader failed")
@@ -71,6 +74,9 @@ func (s *slowReader) Read(p []byte) (int, error) {
 	s.given += n
 	n = copy(p[:n], s.b)
 	s.b = s.b[n:]
+	if s.eofWithLast && len(s.b) == 0 {
+		return n, io.EOF
+	}
 	return n, nil
 }
 
@@ -101,6 +107,16 @@ func genCliReq(rng *rand.Rand, conn string, n int, maxBody, maxResp int) *cliReq
 		cs := [][2]string{{"Connection", "keep-alive"}, {"Keep-Alive", "timeout=5"}, {"Proxy-Connection", "keep-alive"}, {"Upgrade", "websocket"}}[rng.Intn(4)]
 		q.ConnSpec = append(q.ConnSpec, cs)
 	}
+	// the fields the client stores in its compression table (pseudo-headers and user-agent), larger than the table itself:
+	// an entry that does not fit empties the table (RFC 7541 4.4), on both sides
+	switch rng.Intn(24) {
+	case 0:
+		q.Path += "&long=" + randToken(rng, 4000+rng.Intn(3000), "abcdefghijklmnopqrstuvwxyz0123456789")
+		q.Traits = append(q.Traits, "path-larger-than-table")
+	case 1:
+		q.Fields = append(q.Fields, [2]string{"User-Agent", "h2v/" + randToken(rng, 4100+rng.Intn(2000), "abcdefghijklmnopqrstuvwxyz0123456789")})
+		q.Traits = append(q.Traits, "user-agent-larger-than-table")
+	}
 	hasBody := q.Method == "POST" || q.Method == "PUT" || q.Method == "PATCH"
 	if hasBody {
 		bn := 0
@@ -127,12 +143,20 @@ func genCliReq(rng *rand.Rand, conn string, n int, maxBody, maxResp int) *cliReq
 		if q.ReadChunk == 1 && bn > 3000 {
 			q.ReadChunk = 113
 		}
+		if q.BodyMode >= 2 && rng.Intn(3) == 0 {
+			q.EOFWithLast = true
+			q.Traits = append(q.Traits, "eof-with-last-bytes")
+		}
 		q.Traits = append(q.Traits, fmt.Sprintf("body%d", q.BodyMode))
 		if bn > 65535 {
 			q.Traits = append(q.Traits, "bigup")
 		}
 	}
 	// response
+	if rng.Intn(6) == 0 {
+		q.RespSizeUpd = [][]uint32{{4096}, {0, 4096}, {0}, {100}, {1000, 4096}, {0, 0, 4096}}[rng.Intn(6)]
+		q.Traits = append(q.Traits, fmt.Sprintf("resp-table-size-updates%d", len(q.RespSizeUpd)))
+	}
 	q.Status = []int{200, 200, 201, 202, 206, 301, 400, 404, 418, 500, 503, 299, 204, 304}[rng.Intn(14)]
 	q.RespFields = append(q.RespFields, F{Name: "x-rtag", Value: q.Tag})
 	for i := rng.Intn(6); i > 0; i-- {
@@ -236,9 +260,9 @@ func (q *cliReq) build(req *fasthttp.Request) {
 	case 1:
 		req.SetBody(q.Body)
 	case 2:
-		req.SetBodyStream(&slowReader{b: q.Body, chunk: q.ReadChunk, errAt: q.BodyErrAt}, len(q.Body))
+		req.SetBodyStream(&slowReader{b: q.Body, chunk: q.ReadChunk, errAt: q.BodyErrAt, eofWithLast: q.EOFWithLast}, len(q.Body))
 	case 3:
-		req.SetBodyStream(&slowReader{b: q.Body, chunk: q.ReadChunk, errAt: q.BodyErrAt}, -1)
+		req.SetBodyStream(&slowReader{b: q.Body, chunk: q.ReadChunk, errAt: q.BodyErrAt, eofWithLast: q.EOFWithLast}, -1)
 	}
 }
 
@@ -395,7 +419,11 @@ func (q *cliReq) respHeaderBytes(p *rt.Peer, stream uint32) []byte {
 
 func (q *cliReq) finalHeaderBytes(p *rt.Peer, stream uint32) []byte {
 	fs := append([]F{{Name: ":status", Value: fmt.Sprint(q.Status)}}, q.RespFields...)
-	blk := p.EncodeBlock(fs, q.Choices)
+	var upd []byte
+	for _, n := range q.RespSizeUpd {
+		upd = p.Enc.SizeUpdate(upd, n)
+	}
+	blk := append(upd, p.EncodeBlock(fs, q.Choices)...)
 	es := len(q.RespBody) == 0 && len(q.RespTrail) == 0
 	var prio *rt.Prio
 	if q.Prio {
